@@ -12,6 +12,16 @@ CHECKS = {
    text="Theorems pn_decode_eq_rfc (impl = RFC 9000 A.3 for all largest, n in 1..4, all truncated values), pn_decode_window, pn_space_isolation, pn_entry_is_max are kernel-checked with no bound. The model (TLX/Quic/PktNum.lean) is executed against the real method on ~37k single-step cases around every window boundary plus packet histories; the real method is also compared with a literal transcription of RFC 9000 A.3.",
    note=NOTE_COMMON + "Modelled: get_full_packet_number incl. its largest==0 shortcut and table update. Not modelled: how decrypt_packet turns the result into the nonce (covered by C02).",
    design="§8.16"),
+ "C06": dict(
+   technique="Lean 4 proof (induction over records and parts against an independent spec reassembler) + differential correspondence of the model with the real OutputBuilder + strict reader on real outputs",
+   text="Theorems parts_flatten / parts_length_le (a record of n bytes carried by k packets is re-split into <= k parts concatenating to the record, all n, k), reassemble_build (for EVERY record list the conversation OutputBuilder.build emits opens with SYN/SYN-ACK/ACK, is gap-free, non-overlapping, consistently acknowledged - an independent textbook reassembler accepts it - and reassembles to exactly the per-direction record bytes) and build_total are kernel-checked with no bound. The model (TLX/TcpOut.lean) is executed against the real OutputBuilder (scapy frames parsed back by an independent strict parser that verifies every length field and checksum) on ~700 record lists per quick run incl. exception cases; the strict pcapng/frame/conversation reader is run on the real tool's output for decryptable, partly decryptable and undecryptable captures with foreign traffic under 8 option combinations, and the full (n, k) matrix n<=32 (64), k<=8 is run end to end.",
+   note=NOTE_COMMON + "Modelled: OutputBuilder (split arithmetic, handshake, seq/ack bookkeeping, port choice). Not modelled, checked by the strict reader on real output instead: scapy's serialisation (header layout, IPv4/TCP/UDP checksums - compared per frame), dpkt's pcapng writer, QUICOutputbuilder's UDP frames (their grouping is C02). Hypothesis: < 2^32 bytes per direction (sequence numbers are not reduced mod 2^32 in the source).",
+   design="§8.6"),
+ "C11": dict(
+   technique="Lean 4 proof (one's-complement arithmetic by omega, byte-list lemmas by functional induction) + differential correspondence of the model with ones_complement_checksum / calculate_checksum_tcp / calculate_checksum_udp on real Packet objects + independent RFC 1071 receiver + end-to-end metamorphic runs of main.run()",
+   text="Theorems fold_eq_rfc1071 (the fold loop equals the RFC 1071 reduction for every sum), ones_complement_checksum_total (no OverflowError for any byte string), check_eq_rfc_verify (for IPv4/IPv6 × TCP/UDP, every segment length, payload and field value the recompute-and-compare decision equals the receiver-side verification of RFC 1071/768/793/8200 and never raises), run_c_eq_run_filter (the loop with -c over a capture = the loop without -c over the capture minus the bad packets, for an arbitrary handler and any number of packets) are kernel-checked with no bound. The model is executed against the real functions on ~8k frames per quick run (every fold boundary, fields 0x0000/0xffff, odd/even lengths, IPv4 options, IPv6 extension headers, TCP options, Ethernet trailers, random damage, a separate malformed stream); the real functions are compared with an independent receiver; 20 (quick) / 400 (thorough) captures with a decryptable TLS connection, a QUIC connection and corrupted packets are run through main.run() with -c and compared byte for byte with the run without -c on the filtered capture.",
+   note=NOTE_COMMON + "Modelled: ones_complement_checksum (pad, sum, fold loop, complement, to_bytes overflow), both pseudo-headers field by field, zeroing of the field, the compare incl. the RFC 768 zero rule, the -c branches of the packet loop with the handlers as parameters. Not modelled: dpkt dissection (hypothesis Dissected: even address lengths, segment holds the field, length fits the IP length field), handle_packet/handle_quic_packet (parameters), logging. Excluded by hypothesis: UDP/IPv4 with checksum field zero (no checksum).",
+   design="§8.11"),
  "C14": dict(
    technique="Lean 4 proof by kernel evaluation (decide +kernel) over the cipher table regenerated from /repo on every run, lifted to all code points by lookup lemmas + exhaustive 65536-point correspondence",
    text="resolve_sound_complete: for every code point c, the model of split_cipher_suite over the *generated* table returns none iff c is not in the table, and otherwise the table name is the IANA name of c (independent registry copy) and the parameters equal what an independent token-grammar parser says the name denotes. The table is re-extracted from the working tree each run, so the kernel re-checks the theorem against the current source; the real function is compared with the model and with a Python copy of the spec on all 65 536 code points.",
